@@ -114,7 +114,7 @@ def run(eng, tier):
         ('base-mismatch', 'L', lambda e: isf(e, ('val', EQ(F(CFG, 'base_denom'), M(v, 'base')), False))),
         ('id-not-canonical', 'L', lambda e: e['fact'] is not None and e['fact'][0] == 'or' and 'uuid_parse' in repr(e['fact'])),
         ('empty-base', 'L', lambda e: isf(e, ('val', ISEMPTY(M(v, 'base')), True))),
-        ('size-below-1', 'L', lambda e: isf(e, ('val', LT(M(v, 'size'), I(1)), True))),
+        ('size-below-1', 'L', lambda e: is_sign(e['fact'], M(v, 'size'), 'zero')),
         ('storage', 'I', lambda e: is_save_err(e['fact']) or is_storage_load_err(e['fact'])),
         ('class-serialisation', 'I', lambda e: e['fact'] is not None and e['fact'][0] == 'is' and e['fact'][2] == 'Err' and e['fact'][1][0] == 'call' and 'to_string' in e['fact'][1][1]),
         ('zero-amount-pull', 'D(validate: size >= 1)', lambda e: e['fact'] is not None and e['fact'][0] == 'val' and e['fact'][1][0] == 'eq' and I(0) in e['fact'][1][1:] and M(v, 'size') in e['fact'][1][1:]),
